@@ -21,7 +21,7 @@ MANIFEST = {
              'algorithmic invariant over run histories and is not decided. g is uc::ACC_GRAV (checked to lie in [9.78, 9.83]). Reals.'),
 }
 EXPLANATION = 'SVN terms of update_res / calc_res per direction vs the physical reference formulas; provenance of reported front/back values.'
-RULES = ['C07-1.forces', 'C07-2.strap', 'C07-3.report', 'C07-4.resnet', 'C07-5.aggregate', 'C07-6.fresh', 'C07-7.sibling', 'C07-8.index', 'C07-9.profile']
+RULES = ['C07-1.forces', 'C07-2.strap', 'C07-3.report', 'C07-4.resnet', 'C07-5.aggregate', 'C07-6.fresh', 'C07-7.sibling', 'C07-8.index', 'C07-9.profile', 'C07-10.braking']
 ASSUMPTIONS = ['train length > 0', 'cached indices are correct for the current offsets (not decided)', 'identities over the reals']
 
 DIRS = ((0, 'Unk'), (1, 'Fwd'), (2, 'Bwd'))
@@ -40,6 +40,10 @@ def run(ctx):
     from .common import RuleProxy
     from . import C06
     C06.run(RuleProxy(ctx, {k: 'C07-9.profile' for k in C06.RULES if k not in ('C06-4.catenary', 'C06-6.contiguity')}))
+    # the same resistance model is evaluated backwards along the braking curve: there, too, it must see the offset and speed of the
+    # position it is evaluated for (clause of C03-1, shared)
+    from . import C03
+    C03.anchor(RuleProxy(ctx, {'C03-1.anchor': 'C07-10.braking'}, key_filter=lambda k: k.endswith('|resistance state')))
     prog = ctx.prog
     eng = engine(ctx)
     g = eng.const_value('uc::ACC_GRAV')
